@@ -26,6 +26,13 @@ pub fn check_relay(h: &mut Hist, prop: &str, msgs: &[CosmosMsg], resp: &cosmwasm
 
 impl C07 {
     fn step(&self, h: &mut Hist, p: &mut Proxy, pre: &mut Snap, sender: &str, op: &Op) -> bool {
+        let mut sh = std::mem::take(&mut *SHADOW.with(|s| s.clone()).borrow_mut());
+        let r = self.step_inner(h, p, pre, &mut sh, sender, op);
+        SHADOW.with(|s| *s.borrow_mut() = sh);
+        r
+    }
+
+    fn step_inner(&self, h: &mut Hist, p: &mut Proxy, pre: &mut Snap, shadow: &mut Shadow, sender: &str, op: &Op) -> bool {
         let height = p.w.block.height;
         let now = p.w.block.time.nanos();
         let r = p.exec(sender, op);
@@ -35,6 +42,8 @@ impl C07 {
             h.out.abort(&crate::direct::last_panic_site());
         }
         let post = p.snap();
+        let mut spend_of_call: std::collections::BTreeMap<String, u128> = Default::default();
+        let was_admin_any = pre.admins.iter().any(|a| a == sender);
         if let Op::Execute { msgs } = op {
             let is_admin = pre.admins.iter().any(|a| a == sender);
             let was_admin_class = if is_admin { "admin" } else if pre.raw.contains_key(sender) || pre.perms.contains_key(sender) { "subkey" } else { "stranger" };
@@ -43,7 +52,9 @@ impl C07 {
             } else if p.kind == Kind::Whitelist {
                 (Tri::Deny, "not an admin")
             } else {
-                let e = eval_subkey(pre.raw.get(sender), pre.perms.get(sender), msgs, height, now);
+                // judged against the monitor's own record of the grants, not the stored allowance
+                let e = eval_subkey(shadow.allow.get(sender), pre.perms.get(sender), msgs, height, now);
+                spend_of_call = e.spend.clone();
                 (e.verdict, e.reason)
             };
             let kinds: Vec<&str> = msgs.iter().map(msg_kind).collect();
@@ -100,9 +111,21 @@ impl C07 {
         } else {
             h.out.distinct(&(p.kind, op.kind(), r.class()));
         }
+        if r.is_ok() && p.kind == Kind::Subkeys {
+            shadow.apply(sender, op, was_admin_any, &spend_of_call, height, now);
+        }
         *pre = post;
         true
     }
+}
+
+thread_local! {
+    /// the shadow of the current history (one history per thread at a time)
+    static SHADOW: std::rc::Rc<std::cell::RefCell<Shadow>> = std::rc::Rc::new(std::cell::RefCell::new(Shadow::default()));
+}
+
+pub fn reset_shadow() {
+    SHADOW.with(|s| *s.borrow_mut() = Shadow::default());
 }
 
 impl C07 {
@@ -198,6 +221,7 @@ impl Monitor for C07 {
         ]
     }
     fn run_history(&self, h: &mut Hist) {
+        reset_shadow();
         if h.idx < 4 {
             self.directed(h);
             return;
